@@ -19,6 +19,19 @@ Inductive value :=
 
 Record column := mkcol { cname : key; ctype : option N (* None: _MISSING_TYPE or 0 *); cnullable : bool }.
 Definition schema := list column.
+
+(* A FlatColumn as the harness builds it: the three attributes validate reads (its core) plus attributes it
+   must NOT read (round 4): a declared default value, aliases (other names of the column - never keys validate
+   may accept), and which of the remaining descriptive attributes are set (0 description, 1 length,
+   2 precision, 3 scale, 4 null_count, 5 lowest_value, 6 highest_value, 7 origin, 8 disposition,
+   9 element_type).  The model of validate / append takes [fcore] of every column: that IS the statement that
+   nothing else of the column enters; the correspondence runs the real code on columns carrying them. *)
+Record fcolumn := mkfcol {
+  fcore : column;
+  fdefault : option value;
+  faliases : list key;
+  fothers : list N
+}.
 Definition record := list (key * value).
 Definition row := list value.
 
@@ -364,7 +377,9 @@ Inductive mut :=
 | MSetType (i : nat) (t : option N)    (* schema.columns[i].type = t *)
 | MSetNullable (i : nat) (b : bool)    (* schema.columns[i].nullable = b *)
 | MRename (i : nat) (k : key)          (* schema.columns[i].name = k *)
-| MReverse.                            (* schema.columns.reverse() *)
+| MReverse                             (* schema.columns.reverse() *)
+| MSetAttrs (i : nat) (d : option value) (al : list key) (ot : list N).
+                                       (* columns[i].default / .aliases / descriptive attributes assigned: the core is unchanged *)
 
 Fixpoint pop_first (k : key) (s : schema) : schema :=
   match s with
@@ -388,6 +403,7 @@ Definition apply_mut (m : mut) (s : schema) : schema :=
   | MSetNullable i b => update_nth i (fun c => mkcol (cname c) (ctype c) b) s
   | MRename i k => update_nth i (fun c => mkcol k (ctype c) (cnullable c)) s
   | MReverse => rev s
+  | MSetAttrs _ _ _ _ => s
   end.
 
 Inductive sop :=
